@@ -632,8 +632,16 @@ Qed.
 Lemma chosen_length G k s : length (chosen G k s) = k.
 Proof. unfold chosen. now rewrite map_length, seq_length. Qed.
 
-Lemma chosen_nth G k s p : (p < k)%nat -> nth p (chosen G k s) 0 = chosen_edge (edges G p) (param p s).
+Lemma chosen_nth_s G k s p : (p < k)%nat -> nth p (chosen G k s) 0 = chosen_edge_s (edges G p) p s.
 Proof. intros H. unfold chosen. now rewrite nth_map_seq. Qed.
+
+Lemma chosen_nth G k s p : (p < k)%nat -> isnan p s = false ->
+  nth p (chosen G k s) 0 = chosen_edge (edges G p) (param p s).
+Proof. intros H Hn. rewrite chosen_nth_s by exact H. unfold chosen_edge_s. now rewrite Hn. Qed.
+
+Lemma chosen_nth_nan G k s p : (p < k)%nat -> isnan p s = true ->
+  nth p (chosen G k s) 0 = nth (length (edges G p) - 1) (edges G p) 0.
+Proof. intros H Hn. rewrite chosen_nth_s by exact H. unfold chosen_edge_s. now rewrite Hn. Qed.
 
 Lemma low_edge_nth G p : low_edge G p = nth 0 (edges G p) 0.
 Proof. unfold low_edge. now destruct (edges G p). Qed.
@@ -660,8 +668,11 @@ Section OneGroup.
   Lemma chosen_row s : exists r, matches G (chosen G k s) = [r] /\ In r G /\ starts r = chosen G k s.
   Proof.
     destruct (grid_complete G k Hshape Hcc (chosen G k s) Hne (chosen_length G k s)) as [r [Hr E]].
-    { intros p Hp. rewrite chosen_nth by exact Hp. rewrite chosen_edge_nth. apply nth_In.
-      apply bin_of_spec; [apply edges_increasing | now apply edges_nonempty]. }
+    { intros p Hp. rewrite chosen_nth_s by exact Hp. unfold chosen_edge_s.
+      pose proof (edges_nonempty G p Hne) as Hn0.
+      destruct (isnan p s).
+      - apply nth_In. destruct (edges G p); [congruence | simpl; lia].
+      - rewrite chosen_edge_nth. apply nth_In. apply bin_of_spec; [apply edges_increasing | exact Hn0]. }
     pose proof (matches_le1 G k Hshape Hcc (chosen G k s) Hk) as Hle.
     assert (Hin : In r (matches G (chosen G k s))).
     { unfold matches. apply filter_In. split; [exact Hr | now apply zlist_eqb_eq]. }
@@ -669,15 +680,20 @@ Section OneGroup.
     destruct Hin as [->|[]]. eauto.
   Qed.
 
-  Lemma start_chosen r s p : starts r = chosen G k s -> (p < k)%nat ->
+  Lemma start_chosen r s p : starts r = chosen G k s -> (p < k)%nat -> isnan p s = false ->
     start p r = nth (bin_of (edges G p) (param p s)) (edges G p) 0.
-  Proof. intros E Hp. unfold start. rewrite E, chosen_nth by exact Hp. apply chosen_edge_nth. Qed.
+  Proof. intros E Hp Hn. unfold start. rewrite E, chosen_nth by assumption. apply chosen_edge_nth. Qed.
+
+  (* a NaN attribute silently selects the LAST bin (np.digitize(NaN) = len(bins)) *)
+  Lemma start_chosen_nan r s p : starts r = chosen G k s -> (p < k)%nat -> isnan p s = true ->
+    start p r = last_edge G p.
+  Proof. intros E Hp Hn. unfold start. rewrite E, chosen_nth_nan by assumption. reflexivity. Qed.
 
   (* the bins of the chosen row contain the simulant's values, wherever they lie inside the covered range *)
-  Lemma chosen_in_bin r s p : In r G -> starts r = chosen G k s -> (p < k)%nat -> in_range G p (param p s) ->
-    in_bin p r (param p s).
+  Lemma chosen_in_bin r s p : In r G -> starts r = chosen G k s -> (p < k)%nat -> isnan p s = false ->
+    in_range G p (param p s) -> in_bin p r (param p s).
   Proof.
-    intros Hr E Hp [Hlo Hhi]. pose proof (start_chosen r s p E Hp) as Es.
+    intros Hr E Hp Hn [Hlo Hhi]. pose proof (start_chosen r s p E Hp Hn) as Es.
     destruct (bin_of_spec (edges G p) (param p s) (edges_increasing G p) (edges_nonempty G p Hne)) as [Hi [Hmid _]].
     set (i := bin_of (edges G p) (param p s)) in *. rewrite low_edge_nth in Hlo.
     destruct (Hmid Hlo) as [Hle Hlt]. unfold in_bin. split; [now rewrite Es|].
@@ -688,10 +704,10 @@ Section OneGroup.
   Qed.
 
   (* below the range: the first bin; at or above the largest right edge: the last bin *)
-  Lemma chosen_below r s p : starts r = chosen G k s -> (p < k)%nat -> param p s < low_edge G p ->
-    start p r = low_edge G p.
+  Lemma chosen_below r s p : starts r = chosen G k s -> (p < k)%nat -> isnan p s = false ->
+    param p s < low_edge G p -> start p r = low_edge G p.
   Proof.
-    intros E Hp Hlo. rewrite (start_chosen r s p E Hp).
+    intros E Hp Hn Hlo. rewrite (start_chosen r s p E Hp Hn).
     destruct (bin_of_spec (edges G p) (param p s) (edges_increasing G p) (edges_nonempty G p Hne)) as [_ [_ [H0 _]]].
     rewrite low_edge_nth in *. now rewrite (H0 Hlo).
   Qed.
@@ -706,23 +722,23 @@ Section OneGroup.
     unfold max_right. apply col_max_ub. now apply in_map.
   Qed.
 
-  Lemma chosen_above r s p : starts r = chosen G k s -> (p < k)%nat -> max_right G p <= param p s ->
-    start p r = last_edge G p.
+  Lemma chosen_above r s p : starts r = chosen G k s -> (p < k)%nat -> isnan p s = false ->
+    max_right G p <= param p s -> start p r = last_edge G p.
   Proof.
-    intros E Hp Hhi. rewrite (start_chosen r s p E Hp). unfold last_edge. f_equal.
+    intros E Hp Hn Hhi. rewrite (start_chosen r s p E Hp Hn). unfold last_edge. f_equal.
     destruct (bin_of_spec (edges G p) (param p s) (edges_increasing G p) (edges_nonempty G p Hne)) as [Hi [_ [_ Hl]]].
     destruct (Nat.le_gt_cases 2 (length (edges G p))) as [H2|H1]; [|lia].
     apply Hl. pose proof (last_edge_le_max_right p Hp H2). unfold last_edge in *. lia.
   Qed.
 
   (* uniqueness: a row of the group whose bins contain the values IS the chosen row *)
-  Lemma in_bins_is_chosen r' s : In r' G -> (forall p, (p < k)%nat -> in_bin p r' (param p s)) ->
-    starts r' = chosen G k s.
+  Lemma in_bins_is_chosen r' s : In r' G -> (forall p, (p < k)%nat -> isnan p s = false) ->
+    (forall p, (p < k)%nat -> in_bin p r' (param p s)) -> starts r' = chosen G k s.
   Proof.
-    intros Hr Hb. apply (nth_ext _ _ 0 0).
+    intros Hr Hnn Hb. apply (nth_ext _ _ 0 0).
     - rewrite starts_length, chosen_length. now apply Hshape.
     - intros p Hp. rewrite starts_length, (Hshape r' Hr) in Hp.
-      rewrite chosen_nth, chosen_edge_nth by exact Hp. change (nth p (starts r') 0) with (start p r').
+      rewrite chosen_nth, chosen_edge_nth by (try exact Hp; now apply Hnn). change (nth p (starts r') 0) with (start p r').
       destruct (Hb p Hp) as [Hlo Hhi].
       destruct (start_is_edge G k Hshape Hcc p r' Hr) as [j [Hj Ej]].
       pose proof (edges_increasing G p) as Hinc.
@@ -742,18 +758,18 @@ Section OneGroup.
   Qed.
 
   (* a value that is a left edge selects that edge; a value that is a (proper) bin's right edge does not select it *)
-  Lemma chosen_on_start r r0 s p : starts r = chosen G k s -> (p < k)%nat -> In r0 G -> param p s = start p r0 ->
-    start p r = param p s.
+  Lemma chosen_on_start r r0 s p : starts r = chosen G k s -> (p < k)%nat -> isnan p s = false -> In r0 G ->
+    param p s = start p r0 -> start p r = param p s.
   Proof.
-    intros E Hp Hr0 Ex. unfold start at 1. rewrite E, chosen_nth by exact Hp.
+    intros E Hp Hn Hr0 Ex. unfold start at 1. rewrite E, chosen_nth by assumption.
     apply chosen_edge_on_edge; [apply edges_increasing|]. rewrite Ex. now apply start_in_edges.
   Qed.
 
-  Lemma chosen_on_stop r r0 s p : starts r = chosen G k s -> (p < k)%nat -> In r0 G ->
+  Lemma chosen_on_stop r r0 s p : starts r = chosen G k s -> (p < k)%nat -> isnan p s = false -> In r0 G ->
     param p s = stop p r0 -> start p r0 < stop p r0 -> param p s < max_right G p ->
     start p r = param p s.
   Proof.
-    intros E Hp Hr0 Ex Hproper Hhi. unfold start at 1. rewrite E, chosen_nth by exact Hp.
+    intros E Hp Hn Hr0 Ex Hproper Hhi. unfold start at 1. rewrite E, chosen_nth by assumption.
     apply chosen_edge_on_edge; [apply edges_increasing|].
     destruct (start_is_edge G k Hshape Hcc p r0 Hr0) as [j [Hj Ej]].
     destruct (Nat.eq_dec (S j) (length (edges G p))) as [Hlast|Hnl].
@@ -772,35 +788,60 @@ Proof.
   apply existsb_exists in E as [x [Hx Ex]]. rewrite (H x Hx) in Ex. discriminate.
 Qed.
 
-Lemma lookup_row_unknown_key ext d k s : group d (skeys s) = [] -> lookup_row ext d k s = Rejected EPopulation.
-Proof. intros E. unfold lookup_row. now rewrite E. Qed.
+Definition no_nan (k : nat) (s : simulant) : Prop :=
+  key_has_nan (skeys s) = false /\ forall p, (p < k)%nat -> isnan p s = false.
+(* every parameter attribute is a number or NaN (a float column) *)
+Definition numeric (k : nat) (s : simulant) : Prop := any_bad k s = false.
 
-Lemma lookup_row_out ext d k s p : group d (skeys s) <> [] -> ext = false -> (p < k)%nat ->
-  ~ in_range (group d (skeys s)) p (param p s) -> lookup_row ext d k s = Rejected EConfig.
+(* a non-numeric parameter attribute: rejected (TypeError), whatever the flags *)
+Lemma lookup_row_bad ext d k s : key_has_nan (skeys s) = false -> group d (skeys s) <> [] -> any_bad k s = true ->
+  lookup_row ext d k s = Rejected EOther.
 Proof.
-  intros Hne -> Hp Hout. unfold lookup_row. remember (group d (skeys s)) as G eqn:EG.
-  destruct G as [|r0 t]; [congruence|]. simpl negb. cbv iota.
-  assert (E : existsb (fun q => out_one (r0 :: t) q (param q s)) (seq 0 k) = true).
-  { apply existsb_exists. exists p. split; [apply in_seq; lia|].
+  intros Hk Hne Hb. unfold lookup_row. rewrite Hk. destruct (group d (skeys s)); [congruence|]. now rewrite Hb.
+Qed.
+
+Lemma out_one_s_num G p s : isnan p s = false -> out_one_s G p s = out_one G p (param p s).
+Proof. intros H. unfold out_one_s. now rewrite H. Qed.
+
+Lemma lookup_row_unknown_key ext d k s : key_has_nan (skeys s) = false -> group d (skeys s) = [] ->
+  lookup_row ext d k s = Rejected EPopulation.
+Proof. intros Hk E. unfold lookup_row. now rewrite Hk, E. Qed.
+
+(* a missing key attribute: silently a row of NaN, whatever the data and the flags *)
+Lemma lookup_row_missing_key ext d k s : key_has_nan (skeys s) = true -> lookup_row ext d k s = Ok None.
+Proof. intros Hk. unfold lookup_row. now rewrite Hk. Qed.
+
+Lemma lookup_row_out ext d k s p : key_has_nan (skeys s) = false -> numeric k s -> group d (skeys s) <> [] ->
+  ext = false -> (p < k)%nat -> isnan p s = false -> ~ in_range (group d (skeys s)) p (param p s) ->
+  lookup_row ext d k s = Rejected EConfig.
+Proof.
+  intros Hk Hnum Hne -> Hp Hn Hout. unfold lookup_row. rewrite Hk. remember (group d (skeys s)) as G eqn:EG.
+  destruct G as [|r0 t]; [congruence|]. rewrite Hnum. simpl negb. cbv iota.
+  assert (E : existsb (fun q => out_one_s (r0 :: t) q s) (seq 0 k) = true).
+  { apply existsb_exists. exists p. split; [apply in_seq; lia|]. rewrite out_one_s_num by exact Hn.
     destruct (out_one (r0 :: t) p (param p s)) eqn:O; [reflexivity|]. apply out_one_false in O. contradiction. }
   now rewrite E.
 Qed.
 
-Theorem lookup_row_found ext d k s : wf k d = true -> group d (skeys s) <> [] ->
-  (ext = true \/ forall p, (p < k)%nat -> in_range (group d (skeys s)) p (param p s)) ->
+(* the row is found whenever nothing triggers the range test: extrapolation on, or every NUMERIC parameter in range
+   (a NaN parameter never triggers it) *)
+Theorem lookup_row_found ext d k s : wf k d = true -> key_has_nan (skeys s) = false -> numeric k s ->
+  group d (skeys s) <> [] ->
+  (ext = true \/ forall p, (p < k)%nat -> isnan p s = false -> in_range (group d (skeys s)) p (param p s)) ->
   exists r, lookup_row ext d k s = Ok (Some r) /\
             matches (group d (skeys s)) (chosen (group d (skeys s)) k s) = [r] /\
             In r d /\ rkeys r = skeys s /\ starts r = chosen (group d (skeys s)) k s.
 Proof.
-  intros Hwf Hne Hin. destruct (wf_group k d (skeys s) Hwf Hne) as [Hk [Hshape Hcc]].
+  intros Hwf Hkn Hnum Hne Hin. destruct (wf_group k d (skeys s) Hwf Hne) as [Hk [Hshape Hcc]].
   destruct (chosen_row _ k Hne Hk Hshape Hcc s) as [r [Hm [Hr Es]]].
   exists r. apply group_In in Hr as Hr'. destruct Hr' as [Hrd Hrk].
   repeat split; try assumption.
-  unfold lookup_row. remember (group d (skeys s)) as G eqn:EG.
-  destruct G as [|r0 t]; [congruence|].
-  assert (E : negb ext && existsb (fun q => out_one (r0 :: t) q (param q s)) (seq 0 k) = false).
+  unfold lookup_row. rewrite Hkn. remember (group d (skeys s)) as G eqn:EG.
+  destruct G as [|r0 t]; [congruence|]. rewrite Hnum.
+  assert (E : negb ext && existsb (fun q => out_one_s (r0 :: t) q s) (seq 0 k) = false).
   { destruct Hin as [->|Hin]; [reflexivity|]. apply andb_false_iff. right. apply existsb_false.
-    intros q Hq. apply in_seq in Hq. apply out_one_false. apply Hin. lia. }
+    intros q Hq. apply in_seq in Hq. unfold out_one_s. destruct (isnan q s) eqn:Hn; [reflexivity|].
+    apply out_one_false. apply Hin; [lia | exact Hn]. }
   rewrite E, Hm. reflexivity.
 Qed.
 
@@ -817,27 +858,27 @@ Proof.
 Qed.
 
 (* bin membership + uniqueness *)
-Theorem bin_membership ext d k s : wf k d = true -> group d (skeys s) <> [] ->
+Theorem bin_membership ext d k s : wf k d = true -> no_nan k s -> numeric k s -> group d (skeys s) <> [] ->
   (forall p, (p < k)%nat -> in_range (group d (skeys s)) p (param p s)) ->
   exists r, lookup_row ext d k s = Ok (Some r) /\ In r d /\ rkeys r = skeys s /\
             (forall p, (p < k)%nat -> in_bin p r (param p s)) /\
             (forall r', In r' d -> rkeys r' = skeys s -> (forall p, (p < k)%nat -> in_bin p r' (param p s)) -> r' = r).
 Proof.
-  intros Hwf Hne Hin. destruct (wf_group k d (skeys s) Hwf Hne) as [Hk [Hshape Hcc]].
-  destruct (lookup_row_found ext d k s Hwf Hne (or_intror Hin)) as [r [Hl [Hm [Hrd [Hrk Es]]]]].
+  intros Hwf [Hkn Hnn] Hnum Hne Hin. destruct (wf_group k d (skeys s) Hwf Hne) as [Hk [Hshape Hcc]].
+  destruct (lookup_row_found ext d k s Hwf Hkn Hnum Hne (or_intror (fun p Hp _ => Hin p Hp))) as [r [Hl [Hm [Hrd [Hrk Es]]]]].
   assert (Hr : In r (group d (skeys s))) by (now apply group_In).
   exists r. repeat split; try assumption.
-  - apply (chosen_in_bin _ k Hne Hk Hshape Hcc r s p Hr Es H (Hin p H)).
-  - apply (chosen_in_bin _ k Hne Hk Hshape Hcc r s p Hr Es H (Hin p H)).
+  - apply (chosen_in_bin _ k Hne Hk Hshape Hcc r s p Hr Es H (Hnn p H) (Hin p H)).
+  - apply (chosen_in_bin _ k Hne Hk Hshape Hcc r s p Hr Es H (Hnn p H) (Hin p H)).
   - intros r' Hr'd Hr'k Hb. assert (Hr' : In r' (group d (skeys s))) by (now apply group_In).
-    pose proof (in_bins_is_chosen _ k Hne Hk Hshape Hcc r' s Hr' Hb) as E'.
+    pose proof (in_bins_is_chosen _ k Hne Hk Hshape Hcc r' s Hr' Hnn Hb) as E'.
     assert (Hmem : In r' (matches (group d (skeys s)) (chosen (group d (skeys s)) k s))).
     { unfold matches. apply filter_In. split; [exact Hr' | now apply zlist_eqb_eq]. }
     rewrite Hm in Hmem. destruct Hmem as [<-|[]]. reflexivity.
 Qed.
 
 (* extrapolation: nearest edge bin per parameter; rejection when switched off *)
-Theorem extrapolation d k s : wf k d = true -> group d (skeys s) <> [] ->
+Theorem extrapolation d k s : wf k d = true -> no_nan k s -> numeric k s -> group d (skeys s) <> [] ->
   let G := group d (skeys s) in
   (exists r, lookup_row true d k s = Ok (Some r) /\ In r d /\ rkeys r = skeys s /\
      forall p, (p < k)%nat ->
@@ -846,39 +887,60 @@ Theorem extrapolation d k s : wf k d = true -> group d (skeys s) <> [] ->
        (in_range G p (param p s) -> in_bin p r (param p s))) /\
   (forall p, (p < k)%nat -> ~ in_range G p (param p s) -> lookup_row false d k s = Rejected EConfig).
 Proof.
-  intros Hwf Hne G. destruct (wf_group k d (skeys s) Hwf Hne) as [Hk [Hshape Hcc]]. split.
-  - destruct (lookup_row_found true d k s Hwf Hne (or_introl eq_refl)) as [r [Hl [Hm [Hrd [Hrk Es]]]]].
+  intros Hwf [Hkn Hnn] Hnum Hne G. destruct (wf_group k d (skeys s) Hwf Hne) as [Hk [Hshape Hcc]]. split.
+  - destruct (lookup_row_found true d k s Hwf Hkn Hnum Hne (or_introl eq_refl)) as [r [Hl [Hm [Hrd [Hrk Es]]]]].
     assert (Hr : In r G) by (now apply group_In).
     exists r. repeat split; try assumption.
-    + now apply (chosen_below G k Hne Hk Hshape Hcc r s p Es H).
-    + now apply (chosen_above G k Hne Hk Hshape Hcc r s p Es H).
-    + apply (chosen_in_bin G k Hne Hk Hshape Hcc r s p Hr Es H H0).
-    + apply (chosen_in_bin G k Hne Hk Hshape Hcc r s p Hr Es H H0).
-  - intros p Hp Hout. now apply (lookup_row_out false d k s p Hne eq_refl Hp).
+    + now apply (chosen_below G k Hne Hk Hshape Hcc r s p Es H (Hnn p H)).
+    + now apply (chosen_above G k Hne Hk Hshape Hcc r s p Es H (Hnn p H)).
+    + apply (chosen_in_bin G k Hne Hk Hshape Hcc r s p Hr Es H (Hnn p H) H0).
+    + apply (chosen_in_bin G k Hne Hk Hshape Hcc r s p Hr Es H (Hnn p H) H0).
+  - intros p Hp Hout. now apply (lookup_row_out false d k s p Hkn Hnum Hne eq_refl Hp (Hnn p Hp)).
 Qed.
 
 (* the half-open convention: a value equal to a left edge belongs to the bin that starts there; a value equal to a
    (proper) bin's right edge belongs to the bin that starts there - not to the one that ends there *)
-Theorem edges_half_open ext d k s r : wf k d = true -> lookup_row ext d k s = Ok (Some r) ->
-  forall p r0, (p < k)%nat -> In r0 d -> rkeys r0 = skeys s ->
+Theorem edges_half_open ext d k s r : wf k d = true -> key_has_nan (skeys s) = false ->
+  lookup_row ext d k s = Ok (Some r) ->
+  forall p r0, (p < k)%nat -> isnan p s = false -> In r0 d -> rkeys r0 = skeys s ->
     (param p s = start p r0 -> start p r = param p s) /\
     (param p s = stop p r0 -> start p r0 < stop p r0 -> param p s < max_right (group d (skeys s)) p ->
        start p r = param p s /\ r <> r0).
 Proof.
-  intros Hwf Hl p r0 Hp Hr0d Hr0k.
+  intros Hwf Hkn Hl p r0 Hp Hn Hr0d Hr0k.
   assert (Hr0 : In r0 (group d (skeys s))) by (now apply group_In).
   assert (Hne : group d (skeys s) <> []) by (intros E; rewrite E in Hr0; contradiction).
   destruct (wf_group k d (skeys s) Hwf Hne) as [Hk [Hshape Hcc]].
   assert (Es : starts r = chosen (group d (skeys s)) k s).
   { destruct (chosen_row _ k Hne Hk Hshape Hcc s) as [r1 [Hm [Hr1 Es1]]].
-    unfold lookup_row in Hl. remember (group d (skeys s)) as G eqn:EG. destruct G as [|g0 t]; [discriminate|].
-    destruct (negb ext && existsb (fun q => out_one (g0 :: t) q (param q s)) (seq 0 k)); [discriminate|].
+    unfold lookup_row in Hl. rewrite Hkn in Hl. remember (group d (skeys s)) as G eqn:EG.
+    destruct G as [|g0 t]; [discriminate|]. destruct (any_bad k s); [discriminate|].
+    destruct (negb ext && existsb (fun q => out_one_s (g0 :: t) q s) (seq 0 k)); [discriminate|].
     rewrite Hm in Hl. now injection Hl as <-. }
   split.
-  - intros Ex. apply (chosen_on_start _ k Hne Hk Hshape Hcc r r0 s p Es Hp Hr0 Ex).
+  - intros Ex. apply (chosen_on_start _ k Hne Hk Hshape Hcc r r0 s p Es Hp Hn Hr0 Ex).
   - intros Ex Hproper Hhi.
-    pose proof (chosen_on_stop _ k Hne Hk Hshape Hcc r r0 s p Es Hp Hr0 Ex Hproper Hhi) as E. split; [exact E|].
+    pose proof (chosen_on_stop _ k Hne Hk Hshape Hcc r r0 s p Es Hp Hn Hr0 Ex Hproper Hhi) as E. split; [exact E|].
     intros ->. lia.
+Qed.
+
+(* the code as it is (candidate finding): a NaN parameter is never rejected - not even with extrapolation off - and
+   silently selects the LAST bin of that parameter; the other parameters are treated as usual *)
+Theorem nan_parameter ext d k s : wf k d = true -> key_has_nan (skeys s) = false -> numeric k s ->
+  group d (skeys s) <> [] ->
+  (ext = true \/ forall p, (p < k)%nat -> isnan p s = false -> in_range (group d (skeys s)) p (param p s)) ->
+  exists r, lookup_row ext d k s = Ok (Some r) /\ In r d /\ rkeys r = skeys s /\
+    forall p, (p < k)%nat ->
+      (isnan p s = true -> start p r = last_edge (group d (skeys s)) p) /\
+      (isnan p s = false -> in_range (group d (skeys s)) p (param p s) -> in_bin p r (param p s)).
+Proof.
+  intros Hwf Hkn Hnum Hne Hin. destruct (wf_group k d (skeys s) Hwf Hne) as [Hk [Hshape Hcc]].
+  destruct (lookup_row_found ext d k s Hwf Hkn Hnum Hne Hin) as [r [Hl [Hm [Hrd [Hrk Es]]]]].
+  assert (Hr : In r (group d (skeys s))) by (now apply group_In).
+  exists r. repeat split; try assumption.
+  - intros Hn. now apply (start_chosen_nan _ k Hne Hk Hshape Hcc r s p Es H).
+  - apply (chosen_in_bin _ k Hne Hk Hshape Hcc r s p Hr Es H H0 H1).
+  - apply (chosen_in_bin _ k Hne Hk Hshape Hcc r s p Hr Es H H0 H1).
 Qed.
 
 (* ================================================================================================================ *)
@@ -980,8 +1042,10 @@ Section MapRes.
   Qed.
 
   Variable f : list Z -> list (Z * simulant) -> result frame.
-  Hypothesis Hf : forall key sub, sub <> [] -> (forall s, In s sub -> skeys (snd s) = key) ->
+  Hypothesis Hf : forall key sub, key_has_nan key = false -> sub <> [] -> (forall s, In s sub -> skeys (snd s) = key) ->
                                   agree (f key sub) (map_res h sub).
+  (* a simulant whose key tuple has a missing value belongs to no group and keeps its row of NaN *)
+  Hypothesis Hnan : forall s, key_has_nan (skeys s) = true -> h s = Ok None.
 
   Definition partial (done : list (list Z)) (ss : list (Z * simulant)) : frame :=
     map (fun s => (fst s, if existsb (zlist_eqb (skeys (snd s))) done then val (h (snd s)) else None)) ss.
@@ -1004,7 +1068,7 @@ Section MapRes.
   Proof. intros H. now apply sub_table_In in H. Qed.
 
   Lemma run_groups_ok (ss : list (Z * simulant)) : functional ss -> forall keys done,
-    (forall key, In key keys -> sub_table ss key <> []) ->
+    (forall key, In key keys -> sub_table ss key <> [] /\ key_has_nan key = false) ->
     (forall s, In s ss -> In (skeys (snd s)) keys -> okb (h (snd s)) = true) ->
     run_groups f ss keys (partial done ss) = Ok (partial (rev keys ++ done) ss).
   Proof using Hf.
@@ -1012,7 +1076,8 @@ Section MapRes.
     simpl run_groups.
     assert (Hsub : forall s, In s (sub_table ss key) -> okb (h (snd s)) = true).
     { intros s Hs. apply sub_table_In in Hs as [Hs Ek]. apply Hok; [exact Hs | now left]. }
-    pose proof (Hf key (sub_table ss key) (Hne key (or_introl eq_refl)) (sub_table_key ss key)) as Ha.
+    destruct (Hne key (or_introl eq_refl)) as [Hne1 Hne2].
+    pose proof (Hf key (sub_table ss key) Hne2 Hne1 (sub_table_key ss key)) as Ha.
     rewrite (map_res_ok _ Hsub) in Ha. destruct (f key (sub_table ss key)) as [df| |]; try contradiction.
     simpl in Ha. subst df. rewrite (assign_partial ss key done Hn).
     rewrite IH.
@@ -1022,13 +1087,14 @@ Section MapRes.
   Qed.
 
   Lemma run_groups_rejected (ss : list (Z * simulant)) : functional ss -> forall keys done,
-    (forall key, In key keys -> sub_table ss key <> []) ->
+    (forall key, In key keys -> sub_table ss key <> [] /\ key_has_nan key = false) ->
     (exists s, In s ss /\ In (skeys (snd s)) keys /\ okb (h (snd s)) = false) ->
     exists e, run_groups f ss keys (partial done ss) = Rejected e.
   Proof using Hf Hh.
     intros Hn. induction keys as [|key rest IH]; intros done Hne [s [Hs [Hk Hb]]]; [contradiction|].
     simpl run_groups.
-    pose proof (Hf key (sub_table ss key) (Hne key (or_introl eq_refl)) (sub_table_key ss key)) as Ha.
+    destruct (Hne key (or_introl eq_refl)) as [Hne1 Hne2].
+    pose proof (Hf key (sub_table ss key) Hne2 Hne1 (sub_table_key ss key)) as Ha.
     destruct (all_or_some (sub_table ss key)) as [Hall|Hsome].
     - rewrite (map_res_ok _ Hall) in Ha. destruct (f key (sub_table ss key)) as [df| |]; try contradiction.
       simpl in Ha. subst df. rewrite (assign_partial ss key done Hn). apply IH.
@@ -1041,29 +1107,39 @@ Section MapRes.
       destruct (f key (sub_table ss key)) as [df|e'|]; try contradiction. eauto.
   Qed.
 
-  Lemma partial_all keys (ss : list (Z * simulant)) : (forall s, In s ss -> In (skeys (snd s)) keys) -> partial keys ss = pointwise ss.
+  Lemma partial_all keys (ss : list (Z * simulant)) :
+    (forall s, In s ss -> In (skeys (snd s)) keys \/ val (h (snd s)) = None) -> partial keys ss = pointwise ss.
   Proof.
     intros H. unfold partial, pointwise. apply map_ext_in. intros s Hs.
-    assert (E : existsb (zlist_eqb (skeys (snd s))) keys = true).
-    { apply existsb_exists. exists (skeys (snd s)). split; [now apply H | apply zlist_eqb_refl]. }
-    now rewrite E.
+    destruct (existsb (zlist_eqb (skeys (snd s))) keys) eqn:E; [reflexivity|].
+    destruct (H s Hs) as [Hin|Hv]; [|now rewrite Hv].
+    assert (X : existsb (zlist_eqb (skeys (snd s))) keys = true).
+    { apply existsb_exists. exists (skeys (snd s)). split; [exact Hin | apply zlist_eqb_refl]. }
+    congruence.
   Qed.
 
   Theorem by_groups_pointwise (ss : list (Z * simulant)) : functional ss -> agree (by_groups f ss) (map_res h ss).
-  Proof using Hf Hh.
-    intros Hn. unfold by_groups. set (keys := sort_keys (map (fun s => skeys (snd s)) ss)).
-    assert (Hkeys : forall s, In s ss -> In (skeys (snd s)) keys).
-    { intros s Hs. unfold keys. apply sort_keys_In. apply in_map_iff. eauto. }
-    assert (Hne : forall key, In key keys -> sub_table ss key <> []).
-    { intros key Hk. unfold keys in Hk. apply -> sort_keys_In in Hk. apply in_map_iff in Hk as [s [E Hs]].
+  Proof using Hf Hh Hnan.
+    intros Hn. unfold by_groups. set (keys := request_keys ss).
+    assert (Hkeys : forall s, In s ss -> key_has_nan (skeys (snd s)) = false -> In (skeys (snd s)) keys).
+    { intros s Hs Hk. unfold keys, request_keys. apply sort_keys_In. apply filter_In. split.
+      - apply in_map_iff. eauto.
+      - now rewrite Hk. }
+    assert (Hne : forall key, In key keys -> sub_table ss key <> [] /\ key_has_nan key = false).
+    { intros key Hk. unfold keys, request_keys in Hk. apply -> sort_keys_In in Hk.
+      apply filter_In in Hk as [Hk Hkn]. apply negb_true_iff in Hkn. split; [|exact Hkn].
+      apply in_map_iff in Hk as [s [E Hs]].
       intros Hnil. assert (In s (sub_table ss key)) by (apply sub_table_In; auto). rewrite Hnil in H. contradiction. }
     change (map (fun s => (fst s, None)) ss) with (partial [] ss).
     destruct (all_or_some ss) as [Hall|[s [Hs Hb]]].
     - rewrite (run_groups_ok ss Hn keys [] Hne) by (intros s Hs _; now apply Hall).
       rewrite (map_res_ok ss Hall). simpl. rewrite app_nil_r. apply partial_all.
-      intros s Hs. apply in_rev. rewrite rev_involutive. now apply Hkeys.
+      intros s Hs. destruct (key_has_nan (skeys (snd s))) eqn:Hk.
+      + right. now rewrite (Hnan _ Hk).
+      + left. apply in_rev. rewrite rev_involutive. now apply Hkeys.
     - destruct (run_groups_rejected ss Hn keys [] Hne) as [e ->].
-      { exists s. auto. }
+      { exists s. split; [exact Hs|]. split; [|exact Hb]. apply Hkeys; [exact Hs|].
+        destruct (key_has_nan (skeys (snd s))) eqn:Hk; [|reflexivity]. rewrite (Hnan _ Hk) in Hb. discriminate. }
       destruct (map_res_rejected ss (ex_intro _ s (conj Hs Hb))) as [e' ->]. exact I.
   Qed.
 End MapRes.
@@ -1072,7 +1148,7 @@ End MapRes.
 (* K. InterpolatedTable.call on a request = lookup_one mapped over the request                                      *)
 (* ================================================================================================================ *)
 Lemma chosen_from_spec G s : forall k p,
-  chosen_from p (map (edges G) (seq p k)) s = map (fun q => chosen_edge (edges G q) (param q s)) (seq p k).
+  chosen_from p (map (edges G) (seq p k)) s = map (fun q => chosen_edge_s (edges G q) q s) (seq p k).
 Proof. induction k as [|k IH]; intros p; simpl; [reflexivity|]. f_equal. apply IH. Qed.
 
 (* the shared-edges evaluation order of the running model is the specification's [chosen] *)
@@ -1080,22 +1156,25 @@ Lemma chosen_from_all G k s : chosen_from 0 (all_edges G k) s = chosen G k s.
 Proof. unfold all_edges, chosen. apply chosen_from_spec. Qed.
 
 Definition row_in (ext : bool) (G : list row) (k : nat) (s : simulant) : result (option row) :=
-  if negb ext && existsb (fun p => out_one G p (param p s)) (seq 0 k) then Rejected EConfig
+  if any_bad k s then Rejected EOther else
+  if negb ext && existsb (fun p => out_one_s G p s) (seq 0 k) then Rejected EConfig
   else match matches G (chosen G k s) with [] => Ok None | [r] => Ok (Some r) | _ => Rejected EConfig end.
 Definition cells_of (r : result (option row)) : result cells :=
   match r with Ok o => Ok (option_map rvals o) | Rejected e => Rejected e | OutOfFuel => OutOfFuel end.
 
-Lemma lookup_row_in ext d k s :
+Lemma lookup_row_in ext d k s : key_has_nan (skeys s) = false ->
   lookup_row ext d k s = match group d (skeys s) with [] => Rejected EPopulation | _ => row_in ext (group d (skeys s)) k s end.
-Proof. unfold lookup_row, row_in. now destruct (group d (skeys s)). Qed.
+Proof. intros Hk. unfold lookup_row, row_in. rewrite Hk. now destruct (group d (skeys s)). Qed.
 
 Lemma lookup_one_cells ext d k s : lookup_one ext d k s = cells_of (lookup_row ext d k s).
 Proof. reflexivity. Qed.
 
 Lemma lookup_one_not_oof ext d k s : lookup_one ext d k s <> OutOfFuel.
 Proof.
-  rewrite lookup_one_cells, lookup_row_in. destruct (group d (skeys s)); [discriminate|]. unfold row_in.
-  destruct (negb ext && _); [discriminate|]. destruct (matches _ _) as [|a [|b t]]; discriminate.
+  rewrite lookup_one_cells. destruct (key_has_nan (skeys s)) eqn:Hk.
+  - rewrite lookup_row_missing_key by exact Hk. discriminate.
+  - rewrite lookup_row_in by exact Hk. destruct (group d (skeys s)); [discriminate|]. unfold row_in.
+    destruct (any_bad k s); [discriminate|]. destruct (negb ext && _); [discriminate|]. destruct (matches _ _) as [|a [|b t]]; discriminate.
 Qed.
 
 Lemma map_res_ext h1 h2 (ss : list (Z * simulant)) :
@@ -1111,11 +1190,17 @@ Proof.
   rewrite (H a (or_introl eq_refl)), IH; [reflexivity|]. intros x Hx. apply H. now right.
 Qed.
 
-Lemma out_of_range_exists G p (sub : list (Z * simulant)) : sub <> [] ->
-  out_of_range G p sub = existsb (fun s => out_one G p (param p (snd s))) sub.
+Lemma out_of_range_exists G p (sub : list (Z * simulant)) :
+  out_of_range G p sub = existsb (fun s => out_one_s G p (snd s)) sub.
 Proof.
-  intros Hne. unfold out_of_range. cbv zeta.
-  assert (Hx : map (fun s : Z * simulant => param p (snd s)) sub <> []) by (destruct sub; [congruence | discriminate]).
+  unfold out_of_range. cbv zeta.
+  set (num := filter (fun s : Z * simulant => negb (isnan p (snd s))) sub).
+  assert (Hnum : existsb (fun s => out_one_s G p (snd s)) sub = existsb (fun s => out_one G p (param p (snd s))) num).
+  { unfold num. clear. induction sub as [|a t IH]; simpl; [reflexivity|]. unfold out_one_s at 1.
+    destruct (isnan p (snd a)); simpl; [exact IH | now rewrite IH]. }
+  rewrite Hnum. destruct num as [|a t] eqn:En; [reflexivity|]. rewrite <- En.
+  assert (Hx : map (fun s : Z * simulant => param p (snd s)) num <> []) by (rewrite En; discriminate).
+  replace (is_nil (map (fun s : Z * simulant => param p (snd s)) num)) with false by (rewrite En; reflexivity).
   rewrite (col_min_ltb _ _ Hx), (col_max_leb _ _ Hx). apply eq_true_iff_eq.
   rewrite orb_true_iff, !existsb_exists. split.
   - intros [[x [Hin H]]|[x [Hin H]]]; apply in_map_iff in Hin as [s [<- Hs]]; exists s; (split; [exact Hs|]);
@@ -1158,7 +1243,7 @@ Section Order0.
 
   Lemma hG_not_oof s : hG s <> OutOfFuel.
   Proof.
-    unfold hG, row_in. destruct (negb ext && _); [discriminate|].
+    unfold hG, row_in. destruct (any_bad k s); [discriminate|]. destruct (negb ext && _); [discriminate|].
     destruct (matches _ _) as [|a [|b t]]; discriminate.
   Qed.
 
@@ -1170,60 +1255,73 @@ Section Order0.
 
   (* once the range test is passed, the merge is the per-simulant match *)
   Lemma merge_agree (sub : list (Z * simulant)) :
-    (forall s, In s sub -> negb ext && existsb (fun p => out_one G p (param p (snd s))) (seq 0 k) = false) ->
+    (forall s, In s sub -> any_bad k (snd s) = false) ->
+    (forall s, In s sub -> negb ext && existsb (fun p => out_one_s G p (snd s)) (seq 0 k) = false) ->
     agree (let m := merge_left G (all_edges G k) sub in
            if (length m =? length sub)%nat then Ok (combine (map fst sub) m) else Rejected EConfig)
           (map_res hG sub).
   Proof.
-    intros Hin. cbv zeta. rewrite merge_left_merged.
+    intros Hnb Hin. cbv zeta. rewrite merge_left_merged.
     destruct (all_or_some hG sub) as [Hall|[s [Hs Hb]]].
     - rewrite (map_res_ok hG sub Hall).
       assert (E : flat_map merged sub = map (fun s => val (hG (snd s))) sub).
-      { apply flat_map_singleton. intros s Hs. specialize (Hall s Hs). specialize (Hin s Hs).
-        unfold hG, row_in in *. rewrite Hin in *. unfold merged.
+      { apply flat_map_singleton. intros s Hs. specialize (Hall s Hs). specialize (Hin s Hs). specialize (Hnb s Hs).
+        unfold hG, row_in in *. rewrite Hnb, Hin in *. unfold merged.
         destruct (matches G (chosen G k (snd s))) as [|a [|b t]]; simpl in *; try reflexivity. discriminate. }
       rewrite E, map_length, Nat.eqb_refl. simpl. unfold pointwise. apply combine_map_fst.
     - destruct (map_res_rejected hG hG_not_oof sub (ex_intro _ s (conj Hs Hb))) as [e ->].
       assert (L : (length sub < length (flat_map merged sub))%nat).
       { apply flat_map_length_gt; [intros; apply merged_ge1|]. exists s. split; [exact Hs|].
-        specialize (Hin s Hs). unfold hG, row_in in Hb. rewrite Hin in Hb. unfold merged.
+        specialize (Hin s Hs). unfold hG, row_in in Hb. rewrite (Hnb s Hs), Hin in Hb. unfold merged.
         destruct (matches G (chosen G k (snd s))) as [|a [|b t]]; simpl in *; try discriminate. lia. }
       destruct (Nat.eqb_spec (length (flat_map merged sub)) (length sub)); [lia | exact I].
   Qed.
 
-  Lemma order0_agree (sub : list (Z * simulant)) : sub <> [] -> agree (order0 ext G k sub) (map_res hG sub).
+  Lemma order0_agree (sub : list (Z * simulant)) : agree (order0 ext G k sub) (map_res hG sub).
   Proof.
-    intros Hne. unfold order0.
+    unfold order0.
+    destruct (existsb (fun s => any_bad k (snd s)) sub) eqn:B.
+    { apply existsb_exists in B as [s [Hs B]].
+      destruct (map_res_rejected hG hG_not_oof sub) as [e ->]; [|exact I].
+      exists s. split; [exact Hs|]. unfold hG, row_in. now rewrite B. }
+    assert (Hnb : forall s, In s sub -> any_bad k (snd s) = false).
+    { intros s Hs. destruct (any_bad k (snd s)) eqn:Bs; [|reflexivity].
+      assert (existsb (fun s => any_bad k (snd s)) sub = true) by (apply existsb_exists; eauto). congruence. }
     assert (E : existsb (fun p => out_of_range G p sub) (seq 0 k) =
-                existsb (fun s => existsb (fun p => out_one G p (param p (snd s))) (seq 0 k)) sub).
-    { rewrite (existsb_ext_in _ (fun p => existsb (fun s => out_one G p (param p (snd s))) sub)).
+                existsb (fun s => existsb (fun p => out_one_s G p (snd s)) (seq 0 k)) sub).
+    { rewrite (existsb_ext_in _ (fun p => existsb (fun s => out_one_s G p (snd s)) sub)).
       - apply existsb_swap.
-      - intros p _. now apply out_of_range_exists. }
+      - intros p _. apply out_of_range_exists. }
     rewrite E. clear E.
-    destruct (negb ext && existsb (fun s => existsb (fun p => out_one G p (param p (snd s))) (seq 0 k)) sub) eqn:C.
+    destruct (negb ext && existsb (fun s => existsb (fun p => out_one_s G p (snd s)) (seq 0 k)) sub) eqn:C.
     - apply andb_true_iff in C as [Cx C]. apply existsb_exists in C as [s [Hs C]].
       destruct (map_res_rejected hG hG_not_oof sub) as [e ->]; [|exact I].
-      exists s. split; [exact Hs|]. unfold hG, row_in. now rewrite Cx, C.
-    - apply merge_agree. intros s Hs. apply andb_false_iff in C as [C|C]; [now rewrite C|].
+      exists s. split; [exact Hs|]. unfold hG, row_in. now rewrite (Hnb s Hs), Cx, C.
+    - apply merge_agree; [exact Hnb|]. intros s Hs. apply andb_false_iff in C as [C|C]; [now rewrite C|].
       apply andb_false_iff. right.
-      destruct (existsb (fun p => out_one G p (param p (snd s))) (seq 0 k)) eqn:Es; [|reflexivity].
-      assert (existsb (fun s => existsb (fun p => out_one G p (param p (snd s))) (seq 0 k)) sub = true)
+      destruct (existsb (fun p => out_one_s G p (snd s)) (seq 0 k)) eqn:Es; [|reflexivity].
+      assert (existsb (fun s => existsb (fun p => out_one_s G p (snd s)) (seq 0 k)) sub = true)
         by (apply existsb_exists; eauto). congruence.
   Qed.
 End Order0.
 
-Lemma interp_group_agree ext d k key (sub : list (Z * simulant)) :
+Lemma interp_group_agree ext d k key (sub : list (Z * simulant)) : key_has_nan key = false ->
   sub <> [] -> (forall s, In s sub -> skeys (snd s) = key) ->
   agree (interp_group ext d k key sub) (map_res (lookup_one ext d k) sub).
 Proof.
-  intros Hne Hkey. unfold interp_group. destruct (group d key) as [|g0 t] eqn:EG.
+  intros Hkn Hne Hkey. unfold interp_group. destruct (group d key) as [|g0 t] eqn:EG.
   - destruct (map_res_rejected (lookup_one ext d k) (lookup_one_not_oof ext d k) sub) as [e ->]; [|exact I].
     destruct sub as [|s0 r]; [congruence|]. exists s0. split; [now left|].
-    rewrite lookup_one_cells, lookup_row_in, (Hkey s0 (or_introl eq_refl)), EG. reflexivity.
+    rewrite lookup_one_cells, lookup_row_in by (now rewrite (Hkey s0 (or_introl eq_refl))).
+    rewrite (Hkey s0 (or_introl eq_refl)), EG. reflexivity.
   - rewrite (map_res_ext (lookup_one ext d k) (hG ext (g0 :: t) k) sub).
-    + now apply order0_agree.
-    + intros s Hs. rewrite lookup_one_cells, lookup_row_in, (Hkey s Hs), EG. reflexivity.
+    + apply order0_agree.
+    + intros s Hs. rewrite lookup_one_cells, lookup_row_in by (now rewrite (Hkey s Hs)).
+      rewrite (Hkey s Hs), EG. reflexivity.
 Qed.
+
+Lemma lookup_one_missing_key ext d k s : key_has_nan (skeys s) = true -> lookup_one ext d k s = Ok None.
+Proof. intros H. rewrite lookup_one_cells, lookup_row_missing_key by exact H. reflexivity. Qed.
 
 Lemma gather_fst pop : forall idx ss, gather pop idx = Some ss -> map fst ss = idx.
 Proof.
@@ -1281,6 +1379,7 @@ Proof.
   unfold interp_call. apply by_groups_pointwise.
   - apply lookup_one_not_oof.
   - intros key sub. apply interp_group_agree.
+  - apply lookup_one_missing_key.
   - apply with_year_all_functional. now apply (gather_functional pop idx).
 Qed.
 
@@ -1360,21 +1459,21 @@ Proof.
 Qed.
 
 Lemma cat_one_not_oof d s : cat_one d s <> OutOfFuel.
-Proof. unfold cat_one. destruct (group d (skeys s)) as [|a [|b t]]; discriminate. Qed.
+Proof. unfold cat_one. destruct (key_has_nan (skeys s)); [discriminate|]. destruct (group d (skeys s)) as [|a [|b t]]; discriminate. Qed.
 
-Lemma cat_group_agree d key (sub : list (Z * simulant)) : nodup_keys d = true ->
+Lemma cat_group_agree d key (sub : list (Z * simulant)) : nodup_keys d = true -> key_has_nan key = false ->
   sub <> [] -> (forall s, In s sub -> skeys (snd s) = key) ->
   agree (cat_group (group d key) sub) (map_res (cat_one d) sub).
 Proof.
-  intros Hnd Hne Hkey. pose proof (nodup_keys_group d key Hnd) as Hle.
+  intros Hnd Hkn Hne Hkey. pose proof (nodup_keys_group d key Hnd) as Hle.
   destruct (group d key) as [|r [|r2 t]] eqn:EG; simpl in Hle; try lia.
   - destruct (map_res_rejected (cat_one d) (cat_one_not_oof d) sub) as [e ->].
     { destruct sub as [|s0 t]; [congruence|]. exists s0. split; [now left|].
-      unfold cat_one. now rewrite (Hkey s0 (or_introl eq_refl)), EG. }
+      unfold cat_one. now rewrite (Hkey s0 (or_introl eq_refl)), Hkn, EG. }
     unfold cat_group. simpl. destruct sub; [congruence | exact I].
   - rewrite (map_res_ok (cat_one d) sub).
-    + simpl. unfold pointwise. apply map_ext_in. intros s Hs. unfold cat_one. now rewrite (Hkey s Hs), EG.
-    + intros s Hs. unfold cat_one. now rewrite (Hkey s Hs), EG.
+    + simpl. unfold pointwise. apply map_ext_in. intros s Hs. unfold cat_one. now rewrite (Hkey s Hs), Hkn, EG.
+    + intros s Hs. unfold cat_one. now rewrite (Hkey s Hs), Hkn, EG.
 Qed.
 
 Theorem cat_call_local d pop idx : nodup_keys d = true ->
@@ -1385,14 +1484,15 @@ Proof.
   apply by_groups_pointwise.
   - apply cat_one_not_oof.
   - intros key sub. now apply cat_group_agree.
+  - intros s Hk. unfold cat_one. now rewrite Hk.
   - now apply (gather_functional pop idx).
 Qed.
 
 (* what one simulant gets: the values of THE data row with its key tuple *)
-Theorem cat_one_spec d s vs : cat_one d s = Ok vs ->
+Theorem cat_one_spec d s vs : key_has_nan (skeys s) = false -> cat_one d s = Ok vs ->
   exists r, vs = Some (rvals r) /\ In r d /\ rkeys r = skeys s /\ forall r', In r' d -> rkeys r' = skeys s -> r' = r.
 Proof.
-  unfold cat_one. destruct (group d (skeys s)) as [|r [|r2 t]] eqn:EG; try discriminate.
+  intros Hkn. unfold cat_one. rewrite Hkn. destruct (group d (skeys s)) as [|r [|r2 t]] eqn:EG; try discriminate.
   intros [= <-]. exists r. assert (Hr : In r (group d (skeys s))) by (rewrite EG; now left).
   apply group_In in Hr as [Hr Ek]. repeat split; try assumption.
   intros r' Hr' Ek'. assert (H : In r' (group d (skeys s))) by (now apply group_In).
@@ -1436,4 +1536,11 @@ Theorem with_year_param p yv s : (p < length (sparams s))%nat ->
 Proof.
   intros H. unfold param, with_year. simpl. split; [now apply set_nth_same|]. split; [reflexivity|].
   intros q Hq. now apply set_nth_other.
+Qed.
+
+(* the `year` slot is always a number: whatever the simulant's attribute there, the table's value replaces it *)
+Lemma with_year_not_nan p yv s : isnan p (with_year (Some p) yv s) = false.
+Proof.
+  unfold isnan, with_year. simpl. destruct (zmem (Z.of_nat p) _) eqn:E; [|reflexivity].
+  apply zmem_In in E. apply filter_In in E as [_ E]. rewrite Z.eqb_refl in E. discriminate.
 Qed.
